@@ -166,6 +166,12 @@ var myUserSpellings = [][2]string{
 }
 
 func e2eType(engine, spelling string, nn, array bool) (impl J, files map[string]string, res GenResult) {
+	return e2eTypeHist(engine, spelling, nn, array, 0)
+}
+
+// e2eTypeHist: the same final column definition reached by different DDL histories
+//   0 CREATE TABLE   1 created with another type, then retyped (ALTER COLUMN TYPE / MODIFY)   2 ADD COLUMN
+func e2eTypeHist(engine, spelling string, nn, array bool, hist int) (impl J, files map[string]string, res GenResult) {
 	ty := spelling
 	if array {
 		ty += "[]"
@@ -175,6 +181,26 @@ func e2eType(engine, spelling string, nn, array bool) (impl J, files map[string]
 		null = " NOT NULL"
 	}
 	schema := fmt.Sprintf("CREATE TABLE t (k int NOT NULL, c %s%s);\n", ty, null)
+	switch hist {
+	case 1:
+		other := "text"
+		if strings.HasPrefix(spelling, "text") || strings.HasPrefix(spelling, "varchar") {
+			other = "int"
+		}
+		if engine == "mysql" {
+			// the column starts as the OTHER kind of tinyint, so that a stale display width would show
+			if strings.HasPrefix(spelling, "tinyint(1)") || spelling == "bool" || spelling == "boolean" {
+				other = "tinyint(4)"
+			} else if strings.HasPrefix(spelling, "tinyint") {
+				other = "tinyint(1)"
+			}
+			schema = fmt.Sprintf("CREATE TABLE t (k int NOT NULL, c %s%s);\nALTER TABLE t MODIFY c %s%s;\n", other, null, ty, null)
+		} else {
+			schema = fmt.Sprintf("CREATE TABLE t (k int NOT NULL, c %s%s);\nALTER TABLE t ALTER COLUMN c TYPE %s;\n", other, null, ty)
+		}
+	case 2:
+		schema = fmt.Sprintf("CREATE TABLE t (k int NOT NULL);\nALTER TABLE t ADD COLUMN c %s%s;\n", ty, null)
+	}
 	ph := "$1"
 	if engine == "mysql" {
 		ph = "?"
@@ -337,6 +363,15 @@ func runC09(r *Rng, n int, tier string) {
 					emit(Case{ID: fmt.Sprintf("e2e-%s-%s-%v-%v", eng, s[0], nn, arr), Kind: "e2e",
 						In:   J{"engine": eng, "spelling": s[0], "canon": s[1], "notNull": nn, "isArray": arr},
 						Impl: impl, Detail: files, Tags: []string{"e2e", eng}})
+					if !arr {
+						// the same definition reached through ALTER … TYPE / MODIFY and through ADD COLUMN
+						for _, h := range []int{1, 2} {
+							impl, files, _ := e2eTypeHist(eng, s[0], nn, arr, h)
+							emit(Case{ID: fmt.Sprintf("e2e-%s-%s-%v-%v-h%d", eng, s[0], nn, arr, h), Kind: "e2e",
+								In:   J{"engine": eng, "spelling": s[0], "canon": s[1], "notNull": nn, "isArray": arr, "history": h},
+								Impl: impl, Detail: files, Tags: []string{"e2e", eng, fmt.Sprintf("history:%d", h)}})
+						}
+					}
 				}
 			}
 		}
